@@ -14,8 +14,11 @@ RULE = ("case = 1-5 watchers with priorities from a small range (ties "
         "0.5}, global warmup_delay in {0, 0.2, 1}, autostart flags, a "
         "per-spawn cost (virtual time a fork+exec takes) in {1 us, 20 ms, "
         "45 ms}; the "
-        "daemon start plus 0-3 further sequences (start or restart without "
-        "a name or with a glob matching several watchers; all or some watchers "
+        "daemon start plus 0-3 further sequences (start, restart or "
+        "reload-without-graceful without "
+        "a name or with a glob matching several watchers; a per-watcher "
+        "warmup_delay changed by a set request before; several watcher "
+        "sections added to the ini file and a reloadconfig; all or some watchers "
         "stopped in between, workers dying just before - noticed by a check or "
         "not, respawn on or off; on-demand watchers woken together by a "
         "client connection; a quarter of the daemons are started from an ini "
@@ -173,6 +176,50 @@ def execute(case):
                          if r_["owner"] in waiting_], wmap, waiting_,
                         gwarm, viols)
                 continue
+            if kind == 'reloadconfig-add':
+                # several watcher sections are added to the file at once:
+                # the reloadconfig starts them together
+                if not case.get("config"):
+                    continue
+                added = []
+                for j, (prio, np_) in enumerate(sq["add"]):
+                    nm = 'n%d_%d' % (len(wmap), j)
+                    wc_ = {"name": nm, "numprocesses": np_,
+                           "priority": prio, "graceful_timeout": 0.2,
+                           "warmup_delay": 0}
+                    h.edit_config({"add": wc_})
+                    wmap[nm] = dict(wc_)
+                    added.append(nm)
+                n0 = len(k.spawn_log)
+                r = w.request('reloadconfig', {"waiting": True})
+                if case.get("periodic"):
+                    w.advance_until(lambda: r.answered,
+                                    w.loop.time() + 600.0)
+                t_end = w.loop.time() if case.get("periodic") else None
+                w.drain()
+                if (r.reply() or {}).get("status") != "ok":
+                    classes.add('sequence-refused')
+                    continue
+                classes.add('reloadconfig-add-sequence')
+                if len(set(p_ for (p_, n_) in sq["add"] if n_ > 0)) >= 2:
+                    classes.add('multi-watcher-sequence')
+                analyse('reloadconfig-add',
+                        [r_ for r_ in k.spawn_log[n0:]
+                         if r_["owner"] in added and
+                         (t_end is None or r_["t"] <= t_end + EPS)],
+                        wmap, added, gwarm, viols)
+                continue
+            if sq.get("set_warmup"):
+                # the per-watcher delay is changed at run time
+                names0 = sorted(wmap)
+                tgt = names0[sq["set_warmup"][0] % len(names0)]
+                r0 = w.request('set', {"name": tgt, "waiting": True,
+                                       "options": {"warmup_delay":
+                                                   sq["set_warmup"][1]}})
+                w.drain()
+                if (r0.reply() or {}).get("status") == "ok":
+                    wmap[tgt]["warmup_delay"] = sq["set_warmup"][1]
+                    classes.add('warmup-set-at-run-time')
             if sq.get("stop_first"):
                 w.request('stop', {"waiting": True})
                 w.drain()
@@ -196,7 +243,12 @@ def execute(case):
             props = {"waiting": True}
             if sq.get("glob"):
                 props["name"] = sq["glob"]
-            r = w.request(kind, props)
+            if kind == 'reload-terminate':
+                # reload without graceful = every watcher is restarted
+                props["graceful"] = False
+                classes.add('reload-terminate-sequence')
+            r = w.request('reload' if kind == 'reload-terminate' else kind,
+                          props)
             if case.get("periodic"):
                 w.advance_until(lambda: r.answered, w.loop.time() + 600.0)
             t_end = w.loop.time() if case.get("periodic") else None
@@ -268,8 +320,15 @@ def _strategy():
         if od and draw(st.integers(0, 3)) > 0:
             seqs.append({"kind": "socket-event"})
         for _ in range(draw(st.integers(0, 3))):
+            if draw(st.integers(0, 5)) == 0:
+                seqs.append({"kind": "reloadconfig-add", "add": draw(
+                    st.lists(st.tuples(st.integers(0, 2),
+                                       st.integers(0, 2)).map(list),
+                             min_size=2, max_size=4))})
+                continue
             sq = {"kind": draw(st.sampled_from(['start', 'restart',
-                                                'restart'])),
+                                                'restart',
+                                                'reload-terminate'])),
                   "stop_first": draw(st.booleans()),
                   "faults": draw(st.lists(fault, max_size=2))}
             if draw(st.integers(0, 2)) == 0:
@@ -277,6 +336,9 @@ def _strategy():
             if not sq["stop_first"] and draw(st.booleans()):
                 sq["stop_some"] = draw(st.lists(st.integers(0, 4),
                                                 min_size=1, max_size=2))
+            if draw(st.integers(0, 3)) == 0:
+                sq["set_warmup"] = [draw(st.integers(0, 4)), draw(
+                    st.sampled_from([0.5, 0.1, 1.5, 0.3, 1]))]
             if draw(st.integers(0, 2)) == 0:
                 sq["pre_deaths"] = draw(st.lists(st.integers(0, 7),
                                                  min_size=1, max_size=2))
